@@ -36,7 +36,7 @@ fn kw_body<const L: usize>() {
         // not a keyword: the name is kept as it is
         out.len() == L && out == &b[..]
     };
-    kani::cover!(in_kw, "a keyword of this length exists");
+    kani::cover!(in_kw || !HAS_KW_OF_LEN[L], "a keyword of this length exists");
     kani::cover!(!in_kw, "a non-keyword of this length exists");
     assert!(legal, "C14 field identifier is legal (raw-escaped keyword or unchanged name)");
 }
@@ -44,7 +44,7 @@ fn kw_body<const L: usize>() {
 macro_rules! kw_harness {
     ($($name:ident = $l:literal),*) => { $(
         #[kani::proof]
-        #[kani::unwind(13)]
+        #[kani::unwind(56)]
         fn $name() { kw_body::<$l>() }
     )* };
 }
